@@ -479,6 +479,22 @@ pub fn walk_game(cx: &mut Ctx, rng: &mut Rng) {
                 }
             }
         }
+        // C02 speaks of every move the engine generates: the capture-only mode's successors
+        // are judged too (one level; the chains are C13's)
+        if cx.judge.c02 {
+            let caps = generate_moves(&b, MoveGenerationMode::CapturesOnly, z);
+            let legal = p.legal_moves();
+            for s in &caps {
+                if let Some(d) = descriptor(s) {
+                    if legal.contains(&d) {
+                        cx.acc.evals += 1;
+                        if let Some(diff) = diff_board(s, &p.apply(d)) {
+                            cx.violate("C02", format!("C02/capture-only/successor/{}/{}", move_class(&p, d), diff_class(&diff)), format!("capture-only successor of {} by {}: {}", p.fen(), d.uci(), diff), ply, &[]);
+                        }
+                    }
+                }
+            }
+        }
         // capture chains as quiescence follows them
         if cx.judge.c13 {
             let mut budget = 400u32;
